@@ -28,6 +28,7 @@ def run(tier, seed, broken_proof=False):
     count = 60 if tier == "quick" else 500
     violations = []
     strata = Counter()
+    corr = []
     evals = 0
     nontriv = set()
     samples = []
@@ -35,16 +36,38 @@ def run(tier, seed, broken_proof=False):
         cand = ops.corpus_cases(weakly) + ops.gen_ops_cases(rng, count * 2, weakly, max_atoms=5, nq=5, prefix="e%d" % weakly)
         m0 = common.run_model(cand)
         cases = [c for c in cand if m0[c["id"]]["part"] is not None][:count]
+        for c in cases:                                   # queries decided below the top layer
+            extra = ops.tie_queries(rng, c, m0[c["id"]]["part"], 2)
+            k0 = len(c["queries"])
+            c["queries"] = c["queries"] + [(k0 + 1 + i, b, a) for i, (b, a) in enumerate(extra)]
         cfgs = [("system-w", "z3"), ("lex_inf", "z3")] + [("system-w", e) for e in engines] + [("lex_inf", e) for e in engines]
         ccfgs = [("c-inference", e) for e in engines] if not weakly else []
         mres = common.run_model(cases)
         ires = ops.run_impl(cases, cfgs + ccfgs)
+        # the property: all back-ends of one operator give the same answers
+        for c in cases:
+            for opn in ("system-w", "lex_inf"):
+                names = [ops.cfg_name(cf) for cf in cfgs if cf[0] == opn]
+                ref_name = names[0]                       # the z3 back-end
+                ref = ires[c["id"]][ref_name]
+                for nm in names[1:]:
+                    got = ires[c["id"]][nm]
+                    if got != ref:
+                        bad = [i for i, (g, e) in enumerate(zip(got, ref)) if g != e] if isinstance(got, list) and isinstance(ref, list) else [0]
+                        qi = bad[0] if bad else 0
+                        small = dict(c, queries=[c["queries"][qi]]) if c["queries"] else c
+                        violations.append({"kind": "backends-differ", "config": nm, "reference": ref_name, "weakly": weakly, "case": small, "readable": opsprop.describe(small),
+                                           "expected": ref if not isinstance(ref, list) else ref[qi], "actual": got if not isinstance(got, list) else got[qi], "found_by": "generated",
+                                           "model_answer": mres[c["id"]]["model"][qi][opn] if mres[c["id"]]["model"] else None,
+                                           "theorem_or_observable": "answers of %s and %s differ" % (nm, ref_name)})
+                        break
+        # model = code (the theorems reach the code only through this agreement): reported as such when the back-ends agree with each other
         for d in ops.diff_ops(cases, mres, ires, cfgs)[:10]:
             c = d["case"]
             small = dict(c, queries=[c["queries"][d["query"]]] if d["query"] is not None else c["queries"][:1])
-            violations.append({"kind": "answer", "config": d["config"], "weakly": weakly, "case": small, "readable": opsprop.describe(small),
-                               "expected_model": d["model"], "actual": d["impl"], "found_by": "generated",
-                               "theorem_or_observable": "answer under back-end %s differs from the definition (and hence from the other back-ends)" % d["config"]})
+            corr.append({"kind": "correspondence", "config": d["config"], "weakly": weakly, "case": small, "readable": opsprop.describe(small),
+                         "expected_model": d["model"], "actual": d["impl"], "found_by": "none",
+                         "theorem_or_observable": "model answer != implementation answer under back-end %s (all back-ends agree with each other on this input)" % d["config"]})
         for c in cases:
             evals += len(c["queries"]) * len(cfgs + ccfgs)
             for qi, q in enumerate(c["queries"]):
@@ -63,6 +86,8 @@ def run(tier, seed, broken_proof=False):
         if cases:
             samples.append(opsprop.describe(cases[len(cases) // 2]))
     strata["engines"] = len(engines)
+    if not violations:
+        violations += corr[:6]
     return {"evaluations": evals, "distinct_nontrivial": len(nontriv),
             "rule": "generated + corpus cases, both modes; System W and lex under z3 and rc2 with engines %s (unusable in this build: %s), c-inference under each rc2 engine (strict); "
                     "non-trivial = distinct (base, query) with A&B and A&!B satisfiable" % (engines, unus),
